@@ -488,9 +488,14 @@ def null_from(
     node: int,
 ) -> list[int]:
     result = []
+    seen: set[int] = set()
 
     def scan(n: int) -> None:
         nonlocal result
+        # a cycle of epsilon edges (e.g. "a{0,1}*") must not be followed twice
+        if n in seen:
+            return
+        seen.add(n)
         edges = nfa[n]
         if len(edges) == 1 and not edges[0].get("term"):
             return scan(cast(int, edges[0]["to"]))
